@@ -137,3 +137,81 @@ def obligations(prop, module="ford.sourceform", replay=None):
     if seen == 0:
         out.append(OR(id=f"{prop}.S.casefold.anchor", status=UNKNOWN, kind="S", target=module, detail="no comparison of captured text with a keyword literal found (code restructured?)"))
     return out
+
+
+FILE_NAME_FUNCTIONS = {"find_all_files"}
+
+
+def _is_fold_call(e):
+    return isinstance(e, ast.Call) and isinstance(e.func, ast.Attribute) and e.func.attr in FOLDS
+
+
+def name_obligations(prop, modules=("ford.sourceform", "ford.fortran_project"), replay=None):
+    """Fortran names are case-insensitive and FORD keeps the spelling of the declaration in `entity.name`: every equality test between an entity's name and another
+    name folds the case of *both* sides (`a.name.lower() == b.lower()`); a membership test in one of the lower-keyed name tables folds the name.  Generated for every
+    comparison in the current source in which `<expr>.name` occurs and no side is a literal."""
+    out = []
+    has_name = lambda e: any(isinstance(n, ast.Attribute) and n.attr == "name" for n in ast.walk(e))
+    for module in modules:
+        _, tree = loader.module_source(module)
+        for fn in [x for x in ast.walk(tree) if isinstance(x, (ast.FunctionDef, ast.AsyncFunctionDef))]:
+            if fn.name in FILE_NAME_FUNCTIONS:
+                continue            # `.name` of a pathlib path: file names, not Fortran names
+            # local names that hold an already folded name (`dependency_name = dependency[0].lower()`)
+            folded = {t.id for n in ast.walk(fn) if isinstance(n, ast.Assign) and len(n.targets) == 1 and isinstance((t := n.targets[0]), ast.Name) and _is_fold_call(n.value)}
+            is_fold = lambda e, folded=folded: _is_fold_call(e) or (isinstance(e, ast.Name) and e.id in folded)
+            k = 0
+            for c in ast.walk(fn):
+                if not (isinstance(c, ast.Compare) and len(c.ops) == 1 and isinstance(c.ops[0], (ast.Eq, ast.NotEq, ast.In, ast.NotIn))):
+                    continue
+                l, r = c.left, c.comparators[0]
+                if not (has_name(l) or has_name(r)) or isinstance(l, ast.Constant) or isinstance(r, ast.Constant) or isinstance(r, (ast.List, ast.Tuple, ast.Set)):
+                    continue
+                if isinstance(c.ops[0], (ast.In, ast.NotIn)):
+                    if not has_name(l):
+                        continue
+                    ok = is_fold(l)
+                else:
+                    # identity-like comparisons of two entities' attributes other than names (x.name == y.name where both are the same kind of string) still need the fold
+                    ok = is_fold(l) and is_fold(r)
+                r_ = OR(id=f"{prop}.S.casefold.names.{module.split('.')[-1]}.{fn.name}.site{k}", status=PROVED if ok else REFUTED, kind="S", role="post", backend="ast", target=f"{module}.{fn.name}",
+                        desc=f"`{ast.unparse(c)[:80]}` (line {c.lineno}): names are compared with the case folded on both sides")
+                if not ok:
+                    r_.witness = {"comparison": ast.unparse(c), "line": c.lineno}
+                    r_.detail = "an entity's name keeps the spelling of its declaration: a reference spelt in another letter case does not match"
+                    if replay:
+                        r_.replay = replay()
+                out.append(r_)
+                k += 1
+    if not out:
+        out.append(OR(id=f"{prop}.S.casefold.names.anchor", status=UNKNOWN, kind="S", target=",".join(modules), detail="no comparison of entity names found"))
+    return out
+
+
+def attribute_obligations(prop, module="ford.sourceform", replay=None):
+    """attributes of a declared entity keep the spelling of the source (`REAL, EXTERNAL :: f`): a test for an attribute word on another entity's `attribs` folds the case of
+    the list (`"external" in [a.lower() for a in v.attribs]`).  (`self.attribs` of a procedure is produced lower-cased by _list_of_procedure_attributes and is exempt.)"""
+    _, tree = loader.module_source(module)
+    out = []
+    for fn in [x for x in ast.walk(tree) if isinstance(x, (ast.FunctionDef, ast.AsyncFunctionDef))]:
+        k = 0
+        for c in ast.walk(fn):
+            if not (isinstance(c, ast.Compare) and len(c.ops) == 1 and isinstance(c.ops[0], (ast.In, ast.NotIn)) and isinstance(c.left, ast.Constant) and isinstance(c.left.value, str)):
+                continue
+            r = c.comparators[0]
+            reads = [n for n in ast.walk(r) if isinstance(n, ast.Attribute) and n.attr == "attribs" and not (isinstance(n.value, ast.Name) and n.value.id == "self")]
+            if not reads:
+                continue
+            ok = not (isinstance(r, ast.Attribute)) and any(_is_fold_call(n) for n in ast.walk(r))
+            o = OR(id=f"{prop}.S.casefold.attribs.{fn.name}.site{k}", status=PROVED if ok else REFUTED, kind="S", role="post", backend="ast", target=f"{module}.{fn.name}",
+                   desc=f"`{ast.unparse(c)[:90]}` (line {c.lineno}): an attribute word is looked up among case-folded attributes")
+            if not ok:
+                o.witness = {"comparison": ast.unparse(c), "line": c.lineno}
+                o.detail = "attributes keep the letter case of the source: an upper-case attribute is not found"
+                if replay:
+                    o.replay = replay()
+            out.append(o)
+            k += 1
+    if not out:
+        out.append(OR(id=f"{prop}.S.casefold.attribs.anchor", status=UNKNOWN, kind="S", target=module, detail="no attribute membership test on another entity's attribs found"))
+    return out
